@@ -557,6 +557,24 @@ FIXED = [
     ('def(sum, $ + 100) -> [[1, 2].sum(), sum(1)]', {}, {}, [3, 101]),
     ('def(toUpper, 7) -> $.name.toUpper()', {'name': 'ab'}, {}, 'AB'),
 ]
+# variable, parameter and keyword names are the host's and the query author's business: names that coincide with
+# python identifiers the implementation uses internally bind like any other name
+PY_NAMES = ['self', 'other', 'context', 'name', 'args', 'kwargs', 'engine', 'receiver', 'data', 'key', 'value', 'cls', 'func',
+            'variables', 'expr', 'sender', 'parent', 'items', 'kw', 'function', 'method', 'default', 'convention', 'options',
+            'len', 'str', 'dict', 'list', 'type', 'id', 'iter', 'next', 'update', 'get', 'keys', 'values', 'copy', 'pop']
+for _n in PY_NAMES:
+    FIXED.append(('let(%s => 7) -> $%s' % (_n, _n), {}, {}, 7))
+    FIXED.append(('let(%s => 7, x => 1) -> [$x, $%s]' % (_n, _n), {}, {}, [1, 7]))
+    FIXED.append(('def(f, $%s * 2) -> f(%s => 21)' % (_n, _n), {}, {}, 42))
+    FIXED.append(('def(f, [$%s, $]) -> f(3, %s => 21)' % (_n, _n), {}, {}, [21, 3]))
+    FIXED.append(('[5].unpack(%s) -> $%s' % (_n, _n), {}, {}, 5))
+    FIXED.append(('[5, 6].unpack(x, %s) -> [$%s, $x]' % (_n, _n), {}, {}, [6, 5]))
+    FIXED.append(('$%s' % _n, {}, {_n: 8}, 8))
+    FIXED.append(('{%s => 1}.%s' % (_n, _n), {}, {}, 1))
+    FIXED.append(('dict(%s => 1).get(%s)' % (_n, _n), {}, {}, 1))
+    FIXED.append(('{a => 1}.set(%s => 2).get(%s)' % (_n, _n), {}, {}, 2))
+del _n
+
 FIXED_ERRORS = [
     # programs that must fail: a def'd name is not a method of values
     'def(sq, $ * $) -> 3.sq()', 'def(twice, [$, $]) -> [1].twice()', "def(shout, $ + '!') -> 'a'.shout()",
